@@ -275,6 +275,69 @@ def build(run):
         return proved("ast", vcs=n, sample=f"{n} signature functions read counters only through `renumbering`")
     run.add("frame/signature-functions-read-no-raw-counter", frame, kind="proof")
 
+    # ---------------------------------------------------------------- no unordered iteration on the numbering / signature path
+    def unordered():
+        """A set-valued expression may only be turned into a sequence (tuple/list/enumerate/for/+) through a sorter."""
+        import ufl.form as FM
+        SETISH = {"set", "frozenset", "join_domains"}
+        SORTERS = {"sorted", "sort_domains", "sorted_by_count", "sorted_expr", "sorted_by_key", "sorted_by_ufl_id"}
+        fns = [FM.Form._analyze_domains, FM.Form.domain_numbering, FM.Form.terminal_numbering, FM.Form._compute_renumbering, FM.Form._analyze_form_arguments,
+               FM.Form.ufl_domains, FM.Form.constants if hasattr(FM.Form, "constants") else FM.Form.coefficients, SIG.compute_form_signature, SIG.compute_terminal_hashdata]
+        bad, n = [], 0
+        for fn in fns:
+            try:
+                tree = ast.parse(textwrap.dedent(inspect.getsource(fn)))
+            except (OSError, TypeError):
+                continue
+            fdef = tree.body[0]
+            setnames = set()
+            changed = True
+
+            def setish(e):
+                if isinstance(e, ast.Call) and isinstance(e.func, ast.Name) and e.func.id in SETISH:
+                    return True
+                if isinstance(e, (ast.Set, ast.SetComp)):
+                    return True
+                if isinstance(e, ast.Name) and e.id in setnames:
+                    return True
+                if isinstance(e, ast.BinOp) and isinstance(e.op, (ast.BitOr, ast.BitAnd, ast.Sub, ast.BitXor)):
+                    return setish(e.left) or setish(e.right)
+                return False
+            while changed:
+                changed = False
+                for node in ast.walk(fdef):
+                    if isinstance(node, ast.Assign) and len(node.targets) == 1 and isinstance(node.targets[0], ast.Name) and setish(node.value):
+                        if node.targets[0].id not in setnames:
+                            setnames.add(node.targets[0].id)
+                            changed = True
+                    if isinstance(node, ast.AugAssign) and isinstance(node.target, ast.Name) and setish(node.value) and node.target.id not in setnames:
+                        pass
+
+            def ordered_use(e):
+                """e is consumed as a sequence: is it (transitively through +) set-valued without a sorter?"""
+                if isinstance(e, ast.Call) and isinstance(e.func, ast.Name) and e.func.id in SORTERS:
+                    return False
+                if isinstance(e, ast.BinOp) and isinstance(e.op, ast.Add):
+                    return ordered_use(e.left) or ordered_use(e.right)
+                if isinstance(e, ast.Call) and isinstance(e.func, ast.Name) and e.func.id in ("tuple", "list", "enumerate") and e.args:
+                    return ordered_use(e.args[0]) or setish(e.args[0])
+                return setish(e)
+            for node in ast.walk(fdef):
+                n += 1
+                if isinstance(node, ast.Call) and isinstance(node.func, ast.Name) and node.func.id in ("tuple", "list", "enumerate") and node.args and (setish(node.args[0])):
+                    bad.append(f"{fn.__qualname__}: `{ast.unparse(node)[:90]}` orders a set without sorting")
+                if isinstance(node, ast.BinOp) and isinstance(node.op, ast.Add) and (setish(node.left) or setish(node.right)):
+                    bad.append(f"{fn.__qualname__}: `{ast.unparse(node)[:90]}` concatenates a set")
+                if isinstance(node, (ast.DictComp, ast.ListComp, ast.GeneratorExp)):
+                    for g in node.generators:
+                        if ordered_use(g.iter):
+                            bad.append(f"{fn.__qualname__}: comprehension over unsorted set `{ast.unparse(g.iter)[:80]}`")
+        if bad:
+            return violated("numbering/signature code orders a set without a canonical sort (result depends on hash values, i.e. on counters and PYTHONHASHSEED): " + " | ".join(bad[:4]),
+                            replay={"sites": bad}, reproduced=False, backend="ast")
+        return proved("ast", vcs=n, sample=f"{len(fns)} functions on the numbering path: every set is ordered through sorted/sort_domains/sorted_by_count")
+    run.add("frame/no-unordered-iteration-on-the-numbering-path", unordered, kind="proof")
+
     # ---------------------------------------------------------------- history differential on the corpus
     hist = list(HISTORIES_QUICK)
     if run.tier == "thorough":
